@@ -141,6 +141,83 @@ fn case(a: &std::collections::HashMap<String, String>) {
     );
 }
 
+/// a mapping that fails (ENOMEM): the operation may panic or report an error, but it must not write through a null or
+/// dangling pointer (signal), and it must not hand out a region whose length or contents differ from what was created / sent
+fn mmapfail() {
+    for (what, len) in [("from_bytes", 5000usize), ("from_byte", 5000), ("clone", 5000), ("receive", 5000), ("from_bytes", 40 << 20), ("ipc_receive", 3000)] {
+        let data = payload(4242, len);
+        let mut fds = [0i32; 2];
+        unsafe { libc::pipe(fds.as_mut_ptr()) };
+        let pid = unsafe { libc::fork() };
+        if pid == 0 {
+            let r = std::panic::catch_unwind(std::panic::AssertUnwindSafe(|| -> bool {
+                match what {
+                    "from_bytes" => {
+                        mmap_fail(1);
+                        let g = OsIpcSharedMemory::from_bytes(&data);
+                        g.len() == len && g[..] == data[..]
+                    },
+                    "from_byte" => {
+                        mmap_fail(1);
+                        let g = OsIpcSharedMemory::from_byte(0x5a, len);
+                        g.len() == len && g.iter().all(|b| *b == 0x5a)
+                    },
+                    "clone" => {
+                        let g = OsIpcSharedMemory::from_bytes(&data);
+                        mmap_fail(1);
+                        let c = g.clone();
+                        c.len() == len && c[..] == data[..]
+                    },
+                    "receive" => {
+                        let g = OsIpcSharedMemory::from_bytes(&data);
+                        let (tx, rx) = platform::channel().unwrap();
+                        tx.send(b"z", vec![], vec![g]).unwrap();
+                        mmap_fail(1);
+                        match rx.recv() {
+                            Ok((_, _, regs)) => regs.len() == 1 && regs[0].len() == len && regs[0][..] == data[..],
+                            Err(_) => std::process::exit(12),
+                        }
+                    },
+                    _ => {
+                        let g = IpcSharedMemory::from_bytes(&data);
+                        let (tx, rx) = ipc::channel::<IpcSharedMemory>().unwrap();
+                        tx.send(g).unwrap();
+                        mmap_fail(1);
+                        match rx.recv() {
+                            Ok(r) => r.len() == len && r[..] == data[..],
+                            Err(_) => std::process::exit(12),
+                        }
+                    },
+                }
+            }));
+            let code = match r {
+                Ok(true) => 0,
+                Ok(false) => 11,
+                Err(_) => 10,
+            };
+            unsafe { libc::_exit(code) };
+        }
+        let mut st = 0;
+        unsafe { libc::waitpid(pid, &mut st, 0) };
+        unsafe {
+            libc::close(fds[0]);
+            libc::close(fds[1]);
+        }
+        let outcome = if libc::WIFSIGNALED(st) {
+            format!("signal {}", libc::WTERMSIG(st))
+        } else {
+            match libc::WEXITSTATUS(st) {
+                0 => "intact".to_string(),
+                10 => "panic".to_string(),
+                11 => "wrong".to_string(),
+                12 => "error".to_string(),
+                c => format!("exit {}", c),
+            }
+        };
+        println!("{}", json!({"kind":"mmapfail","what":what,"len":len,"outcome":outcome}));
+    }
+}
+
 pub fn run() {
     let stdin = std::io::stdin();
     for line in stdin.lock().lines() {
@@ -148,6 +225,7 @@ pub fn run() {
         let a = kv(&line);
         match a.get("op").map(|s| s.as_str()) {
             Some("zero") => zero(),
+            Some("mmapfail") => mmapfail(),
             Some("case") => {
                 mark(&format!("shm {}", a["id"]));
                 case(&a);
